@@ -7,6 +7,7 @@ import AM.Model.DirReader
 import AM.Model.Health
 import AM.Model.Conc
 import AM.Spec.AuditProc
+import AM.Model.Workers
 /-! `amdriver <mode> [property]`: runs the executable model on cases read from stdin, one per line,
 prints the model's canonical observation, the verdict of the property's executable `Spec` on it
 and — when the case carries the implementation's observation (`obs=`) — the verdict on that. -/
@@ -300,6 +301,86 @@ def apLine (f : List String) : String :=
       s!"{id} {o.render} spec={verdict sp} ispec={isp} dom={dom} nt={nt} amb={if amb then "1" else "0"}"
   | _ => "!badline"
 
+/-! ### C13 / C08: worker automata instantiated from the regenerated blocking facts -/
+
+def wkCore : Wk.Core := Wk.fromGen.core
+
+def phaseOf : String → Option Wk.IPhase
+  | "opening" => some .opening | "reading" => some .reading | "handing" => some .handing | _ => none
+
+/-- `R:<returned>:<late deliveries>:<non-nil error>:<was blocked>` must be `R:1:0:1:1` -/
+def specWorkers (obs : String) : Option String :=
+  match obs.splitOn ":" with
+  | ["R", r, late, err, blocked] =>
+    if blocked != "1" then some "returned-before-cancellation"
+    else if r != "1" then some "did-not-return-after-cancellation"
+    else if late != "0" then some "delivered-after-returning"
+    else if err != "1" then some "returned-nil"
+    else none
+  | _ => some "unparsable-observation"
+
+/-- C13: `<id> <audit|sshd|proc> <state> <cap> <fill> [obs=…]` -/
+def workersLine (f : List String) : String :=
+  match f with
+  | id :: worker :: state :: cap :: fill :: rest =>
+    match cap.toNat?, fill.toNat? with
+    | some c, some n =>
+      let settles : Option Bool :=
+        if worker == "proc" then
+          let p := if state == "busy" then Wk.GPhase.busy else Wk.GPhase.idle
+          some (Wk.rsettles wkCore true 8 ⟨.selecting, p, .idle, false, false⟩)
+        else
+          (phaseOf state).map fun ph =>
+            Wk.isettles wkCore (if worker == "audit" then .audit else .sshd) true c 3 ⟨ph, min n c⟩
+      match settles with
+      | none => s!"{id} !badcase"
+      | some ok =>
+        let obs := if ok then "R:1:0:1:1" else "R:0:0:0:1"
+        let isp := match kv rest "obs" with
+          | none => "-"
+          | some x => verdict (specWorkers x)
+        s!"{id} {obs} spec={verdict (specWorkers obs)} ispec={isp} dom=1 nt=1"
+    | _, _ => s!"{id} !badcase"
+  | _ => "!badline"
+
+def groupOf (cause : String) (load : Bool) : Option Wk.Group :=
+  let cap := Gen.auditLogChanCap
+  let auditBusy : Wk.IS := if load then ⟨.handing, cap⟩ else ⟨.reading, 0⟩
+  let procBusy : Wk.RS := ⟨.selecting, if load then .busy else .idle, .idle, false, false⟩
+  match cause with
+  | "eof-sshd" | "notfifo-sshd" | "writeerr" => some ⟨⟨.returned true, 0⟩, auditBusy, procBusy, false⟩
+  | "eof-audit" | "notfifo-audit" => some ⟨⟨.reading, 0⟩, ⟨.returned true, if load then cap else 0⟩, procBusy, false⟩
+  | "badline" => some ⟨⟨.reading, 0⟩, auditBusy, { procBusy with main := .failing }, false⟩
+  | "sigterm" | "sigint" => some ⟨⟨.reading, 0⟩, auditBusy, procBusy, true⟩
+  | _ => none
+
+def specDaemon (obs : String) : Option String :=
+  match obs.splitOn ":" with
+  | ["X", exited, nonzero] =>
+    if exited != "1" then some "daemon-kept-running"
+    else if nonzero != "1" then some "exit-status-zero"
+    else none
+  | _ => some "unparsable-observation"
+
+/-- C08: `<id> <cause> <load 0|1> [obs=…]` -/
+def daemonLine (f : List String) : String :=
+  match f with
+  | id :: cause :: load :: rest =>
+    match groupOf cause (load == "1") with
+    | none => s!"{id} !badcase"
+    | some g =>
+      let ok := g.cancelled &&
+        Wk.isettles wkCore .sshd true 0 3 g.sshdIng &&
+        Wk.isettles wkCore .audit true Gen.auditLogChanCap 3 g.auditIng &&
+        Wk.rsettles wkCore (g.proc.main != .failing) 8 g.proc
+      let nz := Wk.exitNonZero Wk.fromGen true
+      let obs := s!"X:{if ok then 1 else 0}:{if nz then 1 else 0}"
+      let isp := match kv rest "obs" with
+        | none => "-"
+        | some x => verdict (specDaemon x)
+      s!"{id} {obs} spec={verdict (specDaemon obs)} ispec={isp} dom=1 nt=1"
+  | _ => "!badline"
+
 partial def loop (h : IO.FS.Stream) (out : IO.FS.Stream) (f : List String → String) : IO Unit := do
   let line ← h.getLine
   if line.isEmpty then return ()
@@ -317,6 +398,8 @@ def main (args : List String) : IO UInt32 := do
   | ["health"] => loop stdin stdout healthLine; return 0
   | ["dir"] => loop stdin stdout dirLine; return 0
   | ["pipe"] => loop stdin stdout pipeLine; return 0
+  | ["workers"] => loop stdin stdout workersLine; return 0
+  | ["daemon"] => loop stdin stdout daemonLine; return 0
   | ["auditproc"] => loop stdin stdout apLine; return 0
   | ["tracker", prop] => loop stdin stdout (trackerLine prop); return 0
   | _ => IO.eprintln "usage: amdriver <mode> [property]"; return 2
